@@ -232,3 +232,6 @@ H("modes_timeout_queued_then_hangup", ["C10", "C03"], sym="message bytes symboli
 for n in ["send_retry_first_single_att", "send_retry_first_frag_att", "send_retry_first_frag_noatt"]:
     H(n, ["C13", "C04"], features="k_rec", sym="none (shape): 3000 / 9000 bytes with reported SO_SNDBUF 8192, the first one or two attempts refused with ENOBUFS, 0 or 2 attachments",
       bounds="unwind 12", opt=["REACH_ERR"])
+
+# ---- receiver set (C06): NOT CLAIMED.  kani/src/h_set.rs::rxset_two_members passes natively, but under Kani the
+# symbolic execution does not get past hashbrown's group-probing loop (SIMD emulation) in 40 minutes.
